@@ -299,6 +299,7 @@ type GbnResult struct {
 	Conns     [2]*gbn.GoBackNConn
 	Duration  time.Duration
 	CloseTook [2]time.Duration
+	Abandon   bool // wall-clock runs only: the body found the connection wedged; leave its goroutines behind
 	tw        sync.WaitGroup
 	rmu       sync.Mutex
 }
@@ -413,7 +414,7 @@ func RunGbnBody(t *testing.T, sc *GbnScenario, body Body) *GbnResult {
 			if errs[0] == nil && errs[1] == nil {
 				body(sim, conns, res)
 			}
-			for ep := 0; ep < 2; ep++ {
+			for ep := 0; ep < 2 && !res.Abandon; ep++ {
 				if conns[ep] == nil {
 					continue
 				}
@@ -423,7 +424,9 @@ func RunGbnBody(t *testing.T, sc *GbnScenario, body Body) *GbnResult {
 				sim.log(Event{EP: ep, Kind: "close-ret"})
 				res.CloseTook[ep] = time.Since(t0)
 			}
-			res.wait()
+			if !res.Abandon {
+				res.wait()
+			}
 			cancel()
 			if sc.RealTime {
 				time.Sleep(50 * time.Millisecond)
